@@ -54,12 +54,14 @@ def int_pool(name):
     mid = (lo + hi) // 2
     dflt = midi1.DEFAULTS[name]
     good = sorted({lo, lo + 1, mid, hi - 1, hi, dflt})
-    bad = [lo - 1, hi + 1, lo - 2 ** 31, hi + 2 ** 31, -2 ** 64, 2 ** 64, 1.5, '1', 'x', None,
+    bad = [lo - 1, hi + 1, lo - 2 ** 31, hi + 2 ** 31, -2 ** 64, 2 ** 64, hi + 129, hi + 200, hi + 385, 1000, 2 ** 14 + hi + 1,
+           lo - 129, lo - 200, lo - 1000, 2 ** 31, 2 ** 32 + 5, -2 ** 31, 1.5, '1', 'x', None,
            [1], (1,), 1j, fractions.Fraction(1, 2), float('nan'), float('inf'), b'\x01',
            {}, object]
     # equal-valued non-int twins of values that were certainly validated before
     for x in (lo, hi, mid, dflt, 1 if lo <= 1 <= hi else lo):
         bad += [float(x), fractions.Fraction(x), decimal.Decimal(x)]
+    bad = [v for v in bad if not (isinstance(v, int) and not isinstance(v, bool) and lo <= v <= hi)]
     unj = [True, False]
     return good, bad, unj
 
@@ -72,12 +74,20 @@ def time_pool():
     return good, bad, unj
 
 
+def tainted_sysexdata():
+    """SysexData objects that never went through a check."""
+    from mido.messages.messages import SysexData
+    return [SysexData([200]), SysexData([1, -1]), SysexData([1.5]),
+            Message('sysex', data=[1, 300], skip_checks=True).data,
+            Message('sysex').copy(skip_checks=True, data=[128]).data]
+
+
 def data_pool():
     good = [(), [], (0,), [127], [1, 2, 3], b'\x01\x02', bytearray(b'\x7f'), range(3),
             tuple(range(128)), (0,) * 300]
     bad = [5, 1.5, None, [128], [-1], [1.0], [None], [[1]], ['1'], 'abc', [1, 2, 256],
            (1, 2.0), [fractions.Fraction(1)], [1j], [2 ** 64], b'\x80', bytearray(b'\xff'),
-           object]
+           object] + tainted_sysexdata()
     unj = [True, '', {}, {1: 2}, [True]]
     return good, bad, unj
 
